@@ -359,10 +359,55 @@ theorem extend_spec (b : Bitmap) (h : b.WF) (vs : List Nat) (hvs : ∀ v ∈ vs,
     rw [← i2]
     exact ih _ i1 (fun x hx => hvs x (List.mem_cons_of_mem _ hx))
 
+theorem WF.tail {c : Container} {cs : Bitmap} (h : WF (c :: cs)) : WF cs :=
+  wf_of_dir _ h.dir.tail (fun d hd => h.ne d (List.mem_cons_of_mem _ hd))
+
+theorem cElems_length (c : Container) : c.elems.length = c.store.elems.length := by simp [Container.elems]
+
+theorem clen_eq (c : Container) (hc : c.store.Inv) : c.len = c.elems.length := by
+  unfold Container.len; rw [Store.len_eq _ hc, cElems_length]
+
 /-- inherent.rs:753 `remove_smallest` for every `n` (also `n ≥ len`) -/
 theorem removeSmallest_spec (b : Bitmap) (h : b.WF) (n : Nat) :
     (removeSmallest b n).WF ∧ elems (removeSmallest b n) = Spec.removeSmallest (elems b) n := by
-  sorry
+  unfold Spec.removeSmallest
+  induction b generalizing n with
+  | nil => exact ⟨h, by simp [removeSmallest, elems]⟩
+  | cons c cs ih =>
+    have hdir := h.dir
+    have hc := hdir.2 c (List.mem_cons_self ..)
+    have hinv := Store.canon_inv _ hc.2
+    have hlen := clen_eq c hinv
+    unfold removeSmallest
+    rw [elems_cons]
+    by_cases h1 : c.len ≤ n
+    · rw [if_pos h1]
+      obtain ⟨i1, i2⟩ := ih h.tail (n - c.len)
+      refine ⟨i1, ?_⟩
+      have : List.drop n (c.elems ++ elems cs) = List.drop (n - c.len) (elems cs) := by
+        rw [List.drop_append, List.drop_eq_nil_of_le (by omega), List.nil_append, hlen]
+      rw [i2, this]
+    · rw [if_neg h1]
+      by_cases h2 : n > 0
+      · rw [if_pos h2]
+        obtain ⟨r1, r2, r3⟩ := Container.removeSmallest_spec c hc.2 n (by omega)
+        refine ⟨?_, ?_⟩
+        · apply wf_of_dir
+          · exact Dir.cons hdir.tail (by rw [r1]; exact hc.1) r2 (by rw [r1]; exact hdir.head_lt)
+          · intro d hd
+            rcases List.mem_cons.mp hd with hd | hd
+            · rw [hd, r3]; intro hnil
+              have := congrArg List.length hnil
+              simp only [List.length_drop, List.length_nil] at this
+              rw [← cElems_length] at this; omega
+            · exact h.ne d (List.mem_cons_of_mem _ hd)
+        · rw [elems_cons, List.drop_append_of_le_length (by omega)]
+          congr 1
+          unfold Container.elems; rw [r1, r3, List.map_drop]
+      · rw [if_neg h2]
+        have : n = 0 := by omega
+        subst this
+        exact ⟨h, by rw [elems_cons]; rfl⟩
 
 /-- inherent.rs:788 `remove_biggest` for every `n` -/
 theorem removeBiggest_spec (b : Bitmap) (h : b.WF) (n : Nat) :
